@@ -248,6 +248,10 @@ def known_still_fails(kf):
     if not inp:
         return True
     exe = build(inp.get('config', 'f64'))
+    if inp.get('mode') == 'derived_panics':
+        # the recorded operands still make the real code panic (the process dies with the panic message)
+        rc, out, err, _ = run([exe, 'derived', inp['form']] + [str(x) for x in inp['args']])
+        return rc != 0 and 'panicked' in err and inp.get('expect_stderr', '') in err
     rc, out, err, _ = run([exe, 'one', inp['type'], str(inp['unit_a_index']), inp['amount_a_bits'], str(inp['unit_b_index']), inp['amount_b_bits']])
     if rc != 0 or not out.strip():
         return False
